@@ -69,6 +69,29 @@ CLAIMED["C04"] = dict(cat="other", technique="moment conditions of the extracted
         "over time and the stable range of the explicit scheme are run-time behaviour and are NOT decided.",
    note="Trusted: clang front end, isa-extract, sympy; exact arithmetic; interior rows. PhaseSpace.cpp (moments used to observe the spread) is covered under C09.",
    ref="DESIGN.md §3 C04")
+CLAIMED["C18"] = dict(cat="other", technique="buffer footprint / must-rewrite analysis over the FFT plan bindings and buffer writes extracted from the AST",
+   text="For every ordered pair of operations (updateCSR, wakePotential, padBunchProfiles) and every work buffer an operation reads through an FFT plan or "
+        "directly, decides that whatever the first operation (or a destructive c2r execution) may leave in the buffer is rewritten by the second before it "
+        "is read (whole-buffer rewrite, or the same writes), that plan outputs are read only after the plan ran in the same call and have no other writer, "
+        "that accumulations start from a plain store, and that plans/buffers are bound only during construction. This is exactly history independence of "
+        "an object whose only mutable state is work buffers, for every call sequence and profile history; bit-identity additionally assumes FFTW is a function of its input.",
+   note="Library model of FFTW r2c/c2r footprints (c2r may destroy in[0,n/2); probed on FFTW 3.3.10, DESIGN §3 C18). One genuine defect repaired (F14: shared _bp_padded not cleared). OpenCL/clFFT path not analysed.",
+   ref="DESIGN.md §3 C18")
+CLAIMED["C06"] = dict(cat="other", technique="writer/reader index-map agreement, plan/buffer pipeline order, loop-range and scaling normal forms from the AST; call-argument roles in main",
+   text="Decides the structural clauses of the statement for every bunch count, spacing and transform length: each bunch profile is placed at bucket*spacing "
+        "and its wake potential read back from the same offset into its own row; the stages pad -> r2c -> Z[i]*F[i] (same i, i in [0,floor(nmax/2))) -> c2r -> scale "
+        "run in this order, each reading the buffer the previous one wrote, with plans of length nmax; the only factor after the inverse transform is "
+        "wakescalining/nmax with wakescalining = Ib*dt*c/(sigma_z*delta1*sigma_delta*E0); main pairs each field with the impedance of its own length. "
+        "Numerical equality with a reference DFT is NOT decided (FFTW trusted).",
+   note="Trusted: FFTW computes the unnormalised DFT pair; clang front end, isa-extract, sympy. CPU path only.",
+   ref="DESIGN.md §3 C06")
+CLAIMED["C07"] = dict(cat="other", technique="sign-lattice abstract interpretation of the extracted spectrum/intensity expressions",
+   text="Decides only the sign clauses: under Re Z >= 0 the stored spectrum is a product of factors each classified >= 0 (delta0^2, the optional cutoff factor "
+        "1-exp(-(f/fc)^2) in [0,1) applied only for fc>0, Re Z[i], |F[i]|^2 with the same i), and the intensity is a sum, started at 0, of delta_f*spectrum with "
+        "delta_f>0 - for every profile, cutoff and grid. Any factor of unknown sign turns the verdict to unknown and is reported. The Parseval equality with "
+        "the wake-loss sum is a numerical relation between run-time arrays and is NOT decided.",
+   note="Assumes the passive-impedance precondition of the statement; exact real arithmetic (no rounding).",
+   ref="DESIGN.md §3 C07")
 NOT_YET = "check not built yet in this round (static rule designed in DESIGN.md §3, not implemented)"
 NA = {}
 
